@@ -32,6 +32,10 @@ fn any_src() -> Src {
 fn c01_segment_plan_requests_every_needed_kind() {
     let src = any_src();
     let dst = Dst::new(IsdAsn(kani::any()), kani::any());
+    // an "any core" destination is given in its canonical form <isd>-0
+    if let Dst::AnyCore(x) = dst {
+        kani::assume(x == dst.ias());
+    }
     let hint = if kani::any() {
         let c = IsdAsn(kani::any());
         // the hint names the single core of the SOURCE ISD
